@@ -668,20 +668,92 @@ func c08r6(rc *core.RC) {
 		}
 		rc.Touch("json." + name)
 		info := p.Info(fd)
-		keeps := false
-		ast.Inspect(fd.Body, func(n ast.Node) bool {
-			if as, ok := n.(*ast.AssignStmt); ok && len(as.Lhs) == 1 {
-				if f := core.FieldOf(info, as.Lhs[0]); f != nil && f.Name() == "KeepRefs" {
-					keeps = true
+		// the addresses the frame gets from ctx.Init: the unsafe.Pointer operands of Init's first argument, seen
+		// through one local (p, box := rootPointer(codeSet, header.ptr))
+		var roots []string
+		addRoots := func(e ast.Expr) {
+			ast.Inspect(e, func(m ast.Node) bool {
+				x, isExpr := m.(ast.Expr)
+				if !isExpr {
+					return true
 				}
+				if _, isCall := x.(*ast.CallExpr); isCall {
+					return true
+				}
+				if t := info.TypeOf(x); t != nil && t.String() == "unsafe.Pointer" {
+					if _, isSel := x.(*ast.SelectorExpr); isSel {
+						roots = append(roots, types.ExprString(x))
+						return false
+					}
+				}
+				return true
+			})
+		}
+		var initCall *ast.CallExpr
+		ast.Inspect(fd.Body, func(n ast.Node) bool {
+			if c, ok := n.(*ast.CallExpr); ok && core.CalleeName(info, c) == "encoder.RuntimeContext.Init" && len(c.Args) > 0 {
+				initCall = c
 			}
 			return true
 		})
 		key := "json." + name + "/root-kept"
-		if keeps {
-			rc.OK(key, fd.Pos(), "the root pointer placed in the frame as uintptr is also appended to ctx.KeepRefs")
+		if initCall == nil {
+			rc.Unknown(key, fd.Pos(), "no call of RuntimeContext.Init found")
+			continue
+		}
+		addRoots(initCall.Args[0])
+		ast.Inspect(initCall.Args[0], func(m ast.Node) bool {
+			id, ok := m.(*ast.Ident)
+			if !ok {
+				return true
+			}
+			obj := core.ObjOf(info, id)
+			ast.Inspect(fd.Body, func(d ast.Node) bool {
+				as, ok := d.(*ast.AssignStmt)
+				if !ok || as.Tok != token.DEFINE {
+					return true
+				}
+				for _, l := range as.Lhs {
+					if lid, ok := l.(*ast.Ident); ok && core.ObjOf(info, lid) == obj {
+						for _, r := range as.Rhs {
+							addRoots(r)
+						}
+					}
+				}
+				return true
+			})
+			return true
+		})
+		// appended unconditionally: a statement of the function body itself, behind Init (which empties KeepRefs)
+		kept := map[string]bool{}
+		for _, st := range fd.Body.List {
+			as, ok := st.(*ast.AssignStmt)
+			if !ok || len(as.Lhs) != 1 || len(as.Rhs) != 1 || as.Pos() < initCall.Pos() {
+				continue
+			}
+			if f := core.FieldOf(info, as.Lhs[0]); f == nil || f.Name() != "KeepRefs" {
+				continue
+			}
+			if c, ok := core.Unparen(as.Rhs[0]).(*ast.CallExpr); ok && core.IsBuiltin(info, c, "append") {
+				for _, a := range c.Args[1:] {
+					kept[types.ExprString(a)] = true
+				}
+			}
+		}
+		if len(roots) == 0 {
+			rc.Unknown(key, fd.Pos(), "the address handed to RuntimeContext.Init is not derived from a field of type unsafe.Pointer")
+			continue
+		}
+		missing := ""
+		for _, r := range roots {
+			if !kept[r] {
+				missing = r
+			}
+		}
+		if missing == "" {
+			rc.OK(key, fd.Pos(), "the root pointer placed in the frame as uintptr (%s) is also appended to ctx.KeepRefs, unconditionally and behind Init", strings.Join(roots, ", "))
 		} else {
-			rc.Bad(key, fd.Pos(), "the root value's address is stored in the frame only as a uintptr and is not appended to ctx.KeepRefs: while MarshalJSON/MarshalText callbacks allocate or grow the stack, nothing the collector can see keeps the root alive or updates the address")
+			rc.Bad(key, fd.Pos(), "the root value's address %s is stored in the frame only as a uintptr and is not appended to ctx.KeepRefs (unconditionally, behind Init): while MarshalJSON/MarshalText callbacks allocate or grow the stack, nothing the collector can see keeps the root alive or updates the address", missing)
 		}
 	}
 	// (b) interpreters: mapCtx and the interface word are kept
